@@ -11,7 +11,8 @@ from symexec import api_of
 def rule_clean(ctx):
     R = RuleResult("CLEAN", "user code (hasher, closures, Drop of elements) only ever runs while the two tables and the cursor are mutually consistent: "
                    "an element in flight between the tables sees only the hasher parameter; nothing user-supplied runs between installing a new main "
-                   "table and registering the old one; unwinding paths call no table method (reflect-before-remove is P-rem)")
+                   "table and registering the old one; unwinding paths call no table method (reflect-before-remove is P-rem); the iterators whose Drop "
+                   "calls a user closure again are only built and handed out, never driven or dropped by the crate itself")
     mv = movers(ctx)
     T = ctx.facts.types
     n = 0
@@ -670,6 +671,54 @@ def _local_s_state_after(ctx, b, local, from_loc, to_loc):
     return True
 
 
+def _assert_can_fail(ctx, b, c, dead_edges):
+    """can the assertion that call c (a test of the resize state) belongs to still panic when c's result is the unwanted one, without
+    crossing one of dead_edges?  (the remaining operands of a `||` / `&&` condition may decide it)"""
+    if c.dest is None or c.dest["proj"] or c.target is None:
+        return True
+    span = c.t["span"]
+
+    def is_panic(x):
+        t = b.term(x)
+        if t["k"] == "call" and t.get("target") is None:
+            cc = ctx.call_at(b, x)
+            return cc is not None and (cc.name or "").startswith("core::panicking")
+        return False
+    want = _asserted_truth(ctx, b, c)
+    # follow both outcomes unless the polarity is known; stay inside the assertion (same macro expansion line)
+    starts = [c.target]
+    seen = set()
+    st = list(starts)
+    while st:
+        x = st.pop()
+        if x in seen:
+            continue
+        seen.add(x)
+        if is_panic(x):
+            return True
+        t = b.term(x)
+        if t["span"].get("line") != span.get("line") or t["span"].get("file") != span.get("file"):
+            continue         # left the assertion
+        for s_ in b.succs(x):
+            if (x, s_) in dead_edges:
+                continue
+            if t["k"] == "switch" and want is not None:
+                d = b.source_def(t["discr"])
+                neg = False
+                if d is not None and d[1] == "assign" and d[2]["rv"]["k"] == "unop" and d[2]["rv"]["op"] == "Not":
+                    d = b.source_def(d[2]["rv"]["a"])
+                    neg = True
+                if d is not None and d[1] == "call" and d[0] == c.loc:
+                    vals = [v for v, tb in t["targets"] if tb == s_]
+                    truth = (vals != [0]) if vals else True
+                    if neg:
+                        truth = not truth
+                    if truth == want:
+                        continue     # the wanted outcome: the assertion holds through this operand
+            st.append(s_)
+    return False
+
+
 def rule_t_dbg(ctx):
     R = RuleResult("T-dbg", "every debug-only assertion about whether a resize is pending is implied by what the (release) code establishes anyway, so the "
                    "debug build never stops where the release build would continue")
@@ -787,6 +836,29 @@ def rule_t_dbg(ctx):
                     if same_table and not dirty:
                         ok = True
                         how = "on the path where find() returned an old-table bucket (K-new: only built in find's LEFT=Some arm) and nothing in between frees the old table"
+            if not ok and b.path in ts.results and s_path is not None and is_self_s(ctx, b, Path(s_path.root, s_path.elems)):
+                # a type's size is fixed per instantiation: decide the assertion separately for zero-sized and for other element types
+                # (`debug_assert!(self.leftovers.is_none() || size_of::<T>() != 0)` after `if size_of::<T>() == 0 { carry_all }`)
+                from rules_typestate import typestate_world
+                from rules_protocol import _sizeof_guard_edges
+                sz = _sizeof_guard_edges(ctx, b)
+                hows = []
+                for w in ("zero", "nonzero"):
+                    tw = typestate_world(ctx, w)
+                    entry = N if b.path in req else TOP
+                    stt = tw.results[b.path][entry][0].get(c.loc.bb, BOT)
+                    if stt == kind:
+                        hows.append("for %s-sized elements the typestate at the assertion is %s" % (w, stt))
+                    elif stt == BOT:
+                        hows.append("for %s-sized elements the assertion is not reached" % w)
+                    elif not _assert_can_fail(ctx, b, c, {e for e, v in sz.items() if v != w}):
+                        hows.append("for %s-sized elements the other operands of the assertion hold" % w)
+                    else:
+                        hows = None
+                        break
+                if hows and sz:
+                    ok = True
+                    how = "; ".join(hows)
             R.inst(fn=b.path, site=c.where(), asserts="LEFT=%s" % kind, verdict=("ok: " + how) if ok else "VIOLATION")
             if not ok:
                 R.viol(key, c.where(), "debug_assert in %s requires LEFT=%s, which the analysis cannot derive from the code that also runs in release: "
